@@ -152,7 +152,7 @@ EXTRA_TECH = {
     "C06": " + statement programs (groupby / in-place assignment / select / filter in any order) run by one interpreter on the streaming objects and on pandas; falsy and non-string column labels",
     "C10": " + 20 c10_ theorems over the event-loop models of the asynchronous node groups (Props/AsyncMetadata.lean: every batch / tuple carries exactly its members' metadata in member order, for every action sequence) with their correspondences + model-free metadata oracle on asynchronous pipelines (buffer/delay/rate_limit/map_async/timed_window/partition with timeout) against the same pipeline with the timing removed",
     "C11": " + defect-mirroring model of EWMean on NaN cells and a pandas NaN specification (recorded finding), both compared with the real code",
-    "C12": " + an uninterrupted run in which a consumer rejects one delivery while the producer carries on",
+    "C12": " + Props/C12Graph.lean on the dataflow model (the state inside an emitted pair IS the retained state whatever fails downstream; resumption from it, for every arrival list; the swapped order refuted on a witness) + an uninterrupted run in which a consumer rejects one delivery while the producer carries on",
     "C13": " + rejecting consumers and falsy payloads",
     "C14": " + None/falsy payloads, late-attached consumers, detach/re-attach of the node from its upstream",
     "C15": " + asynchronous nodes rewired while they hold data (random and directed), every form of emit_on",
